@@ -771,7 +771,9 @@ private:
         assert(begin >= 0 && begin <= end && end <= this->template size<0>());
         auto dimensions = dims();
         dimensions[0]   = end - begin;
-        return map_tensor(ptr + offset0(begin), dimensions);
+        // NB: an empty slice at the very end starts one past the last element (offset0 expects a valid first index)!
+        const auto offset = (begin < this->template size<0>()) ? offset0(begin) : this->size();
+        return map_tensor(ptr + offset, dimensions);
     }
 
     template <class texpression, std::enable_if_t<is_eigen_v<texpression>, bool> = true>
